@@ -75,6 +75,8 @@ def write_shims(f, maxholes=4):
             k += 1
         if cur.strip():
             parts.append(cur.strip())
+        if len(parts) == 1 and m.group(1) == "writeln":
+            parts.append('""')      # `writeln!(w)` is `writeln!(w, "")`
         if len(parts) < 2 or not parts[1].startswith('"'):
             raise AnchorLost("%s: write! invocation of unknown shape" % f.name)
         w, fmt, args = parts[0], parts[1][1:-1], parts[2:]
@@ -255,7 +257,7 @@ pub open spec fn trace_text(t: StackTrace<'_>) -> Seq<u8> {
                 it.seq().len() == self.frames@.len(), forall|k: int| 0 <= k < it.seq().len() ==> *(#[trigger] it.seq()[k]) == self.frames@[k],
         {
             proof { axiom_dsp(); axiom_dsp_refs(); axiom_u16_literals(); }""" % mfor.group(1), "R1", "Verus loop-invariant syntax on the same `for` loop (named iterator)")
-    f.insert_at(mfor.start(), "proof { assert((*f).bytes() =~= t0 + head + frames_text(self.frames@, 0)); }\n        ")
+    f.insert_at(mfor.start(), "proof { /*@L:head_is_the_exception_line_or_nothing:C17,C08*/ assert((*f).bytes() =~= t0 + head + frames_text(self.frames@, 0)); }\n        ")
     f.insert_at(lp[0][3], """    proof {
                 let i = it.index@ as int;
                 assert(*%(fr)s == self.frames@[i]);
